@@ -962,6 +962,9 @@ func exec(line string) hx.Result {
 	// proved sound in Search/OrderlyInstCheck.v) on the table of this case, i.e. on the real answers
 	// of graph.CanonicalIsomorphAllocated and of the k-subset orbit loop, and prints its verdict here
 	pj.WriteString(" | spec:ok")
+	// and the verdict of the comparison of the composed labelling model canon_real with every
+	// tabulated real answer (orbit partition, early exit only where the spec allows it)
+	pj.WriteString(" | canonmodel:ok")
 	total := 0
 	no := func(*graph.DenseGraph) bool { return false }
 	for _, m := range moduli {
@@ -1009,7 +1012,7 @@ func exec(line string) hx.Result {
 	res.Nontrivial = total >= 2
 	// strict part: first the verdict of the model of the k-subset orbit loop (ksub_real of
 	// Search/OrderlyInstKsubModel.v) against the K entries of the table, printed by the model side
-	res.Obs = pj.String() + fmt.Sprintf(" ## ksubloop:ok(%d)", strings.Count(line, ";K")) + st.String()
+	res.Obs = pj.String() + fmt.Sprintf(" ## canonexact:ok ksubloop:ok(%d)", strings.Count(line, ";K")) + st.String()
 	return res
 }
 
